@@ -1,0 +1,466 @@
+//go:build verif
+
+// Copyright 2026 The Scriggo Authors. All rights reserved.
+// Use of this source code is governed by a BSD-style
+// license that can be found in the LICENSE file.
+
+package runtime
+
+// Verification hooks for property C05 (running compiled code never panics
+// into the host). Compiled only with the "verif" build tag. Add-only: every
+// function calls the real, unexported code (convertPanic, nextCall, run,
+// renderer.Text, renderer.Show, swapStack); nothing here is used by it.
+
+import (
+	"errors"
+	"io"
+	"reflect"
+	"runtime"
+	"strconv"
+
+	"github.com/open2b/scriggo/ast"
+)
+
+// VerifC05Fault describes one Go panic caught at the recover point of the
+// virtual machine and what the real convertPanic made of it.
+type VerifC05Fault struct {
+	HasFn        bool   // vm.fn != nil when the panic was recovered
+	Op           int    // signed operation vm.fn.Body[vm.pc-1].Op (0 if !HasFn)
+	NativeCallee bool   // OpCallIndirect only: the callee is a native callable
+	Class        string // payload class, see verifC05Class
+	Msg          string // message of runtime errors and string payloads
+	Outcome      string // "panicError", "fatal", "stop", "passthrough"
+}
+
+// verifC05RuntimeError is a runtime.Error that is not a Scriggo runtimeError.
+type verifC05RuntimeError string
+
+func (e verifC05RuntimeError) Error() string { return string(e) }
+func (e verifC05RuntimeError) RuntimeError() {}
+
+// verifC05Class returns the payload class of a recovered panic value, in the
+// order in which the model's Payload type distinguishes them.
+func verifC05Class(msg any) (class, text string) {
+	switch m := msg.(type) {
+	case stopError:
+		return "stopError", ""
+	case outError:
+		return "outError", ""
+	case runtimeError:
+		return "scriggoRuntimeError", string(m)
+	case *fatalError:
+		return "fatalError", ""
+	case runtime.Error:
+		return "goRuntimeError", m.Error()
+	case string:
+		return "str", m
+	case error:
+		return "err", ""
+	}
+	return "other", ""
+}
+
+func verifC05Outcome(msg any, err error) string {
+	switch err.(type) {
+	case *PanicError:
+		return "panicError"
+	case *fatalError:
+		return "fatal"
+	case stopError:
+		return "stop"
+	}
+	return "passthrough"
+}
+
+// verifC05NativeCallee replicates the test that convertPanic does for
+// OpCallIndirect.
+func (vm *VM) verifC05NativeCallee() (native bool) {
+	defer func() {
+		if recover() != nil {
+			native = false
+		}
+	}()
+	in := vm.fn.Body[vm.pc-1]
+	v := vm.general(in.A)
+	if !v.IsValid() || !v.CanInterface() {
+		return false
+	}
+	f, ok := v.Interface().(*callable)
+	return ok && f.fn == nil
+}
+
+func (vm *VM) verifC05RunRecoverable(rec *[]VerifC05Fault) (err error) {
+	panicking := true
+	defer func() {
+		if panicking {
+			msg := recover()
+			f := VerifC05Fault{HasFn: vm.fn != nil}
+			if vm.fn != nil && vm.pc >= 1 && int(vm.pc-1) < len(vm.fn.Body) {
+				f.Op = int(vm.fn.Body[vm.pc-1].Op)
+				if Operation(f.Op) == OpCallIndirect {
+					f.NativeCallee = vm.verifC05NativeCallee()
+				}
+			}
+			f.Class, f.Msg = verifC05Class(msg)
+			err = vm.convertPanic(msg)
+			f.Outcome = verifC05Outcome(msg, err)
+			*rec = append(*rec, f)
+		}
+	}()
+	if vm.fn != nil || vm.nextCall() {
+		vm.run()
+	}
+	panicking = false
+	return nil
+}
+
+// VerifC05Result is the result of VerifC05Run.
+type VerifC05Result struct {
+	Faults    []VerifC05Fault
+	Err       error  // what VM.Run would return
+	HostPanic bool   // VM.Run would panic (with HostValue)
+	HostValue any    // the value VM.Run would panic with
+	StackLens [4]int // lengths of the four register stacks at the end
+}
+
+// VerifC05Run executes fn as VM.Run does (without a context), through the
+// real nextCall, run and convertPanic, and records every panic recovered by
+// the virtual machine. It replicates only the loop of runFunc and the
+// unwrapping of VM.Run; instead of panicking with a fatal error it reports it.
+func VerifC05Run(fn *Function, typeof TypeOfFunc, globals []reflect.Value, print PrintFunc, out io.Writer, conv Converter) (res VerifC05Result) {
+	vm := NewVM()
+	if print != nil {
+		vm.SetPrint(print)
+	}
+	if out != nil {
+		vm.SetRenderer(out, conv)
+	}
+	if typeof == nil {
+		typeof = typeOfFunc
+	}
+	vm.env.typeof = typeof
+	vm.env.globals = globals
+	vm.fn = fn
+	vm.vars = globals
+	var err error
+	for {
+		err = vm.verifC05RunRecoverable(&res.Faults)
+		if err == nil {
+			break
+		}
+		p, ok := err.(*PanicError)
+		if !ok {
+			break
+		}
+		err = nil
+		p.next = vm.panic
+		vm.panic = p
+		if len(vm.calls) == 0 {
+			break
+		}
+		vm.calls = append(vm.calls, callFrame{cl: callable{fn: vm.fn}, renderer: vm.renderer, fp: vm.fp, status: panicked, prevPanic: p.next})
+		vm.fn = nil
+	}
+	if err == nil && vm.panic != nil {
+		err = vm.panic
+	}
+	res.StackLens = [4]int{len(vm.regs.int), len(vm.regs.float), len(vm.regs.string), len(vm.regs.general)}
+	switch e := err.(type) {
+	case *PanicError:
+		if outErr, ok := e.message.(outError); ok {
+			err = outErr.err
+		}
+	case *fatalError:
+		res.HostPanic = true
+		res.HostValue = e.msg
+		err = nil
+	case stopError:
+		err = e.err
+	}
+	res.Err = err
+	return res
+}
+
+// VerifC05Classify calls the real convertPanic on a synthetic payload with a
+// virtual machine whose last executed instruction has operation op (hasFn
+// false: no running function, as while unwinding). class is one of the
+// classes returned by verifC05Class; msg is the message.
+func VerifC05Classify(op int, hasFn, nativeCallee bool, class, msg string) (outcome string, panicked string) {
+	defer func() {
+		if r := recover(); r != nil {
+			outcome = ""
+			panicked = "panic: " + panicToStringSafe(r)
+		}
+	}()
+	vm := NewVM()
+	if hasFn {
+		vm.fn = &Function{
+			Body:            []Instruction{{Op: Operation(op), A: 1, B: 1, C: 1}},
+			InstructionInfo: map[Addr]InstructionInfo{},
+		}
+		vm.pc = 1
+		switch {
+		case Operation(op) != OpCallIndirect:
+			// errIndexOutOfRange reads the length of the indexed value.
+			vm.setGeneral(1, reflect.ValueOf([]int{}))
+		case nativeCallee:
+			vm.setGeneral(1, reflect.ValueOf(&callable{native: NewNativeFunction("", "", func() {})}))
+		default:
+			vm.setGeneral(1, reflect.ValueOf(&callable{fn: &Function{}}))
+		}
+	}
+	var payload any
+	switch class {
+	case "stopError":
+		payload = stopError{errors.New(msg)}
+	case "outError":
+		payload = outError{errors.New(msg)}
+	case "scriggoRuntimeError":
+		payload = runtimeError(msg)
+	case "fatalError":
+		payload = &fatalError{msg: msg}
+	case "goRuntimeError":
+		payload = verifC05RuntimeError(msg)
+	case "str":
+		payload = msg
+	case "err":
+		payload = errors.New(msg)
+	default:
+		payload = 42
+	}
+	err := vm.convertPanic(payload)
+	return verifC05Outcome(payload, err), ""
+}
+
+func panicToStringSafe(r any) (s string) {
+	defer func() {
+		if recover() != nil {
+			s = "?"
+		}
+	}()
+	return panicToString(r)
+}
+
+// VerifC05OpNames returns the operations by name.
+func VerifC05OpNames() map[string]int {
+	return map[string]int{
+		"OpNone": int(OpNone), "OpAdd": int(OpAdd), "OpAddInt": int(OpAddInt), "OpAddFloat64": int(OpAddFloat64),
+		"OpAddr": int(OpAddr), "OpAnd": int(OpAnd), "OpAndNot": int(OpAndNot), "OpAssert": int(OpAssert),
+		"OpAppend": int(OpAppend), "OpAppendSlice": int(OpAppendSlice), "OpBreak": int(OpBreak),
+		"OpCallFunc": int(OpCallFunc), "OpCallIndirect": int(OpCallIndirect), "OpCallMacro": int(OpCallMacro),
+		"OpCallNative": int(OpCallNative), "OpCap": int(OpCap), "OpCase": int(OpCase), "OpClose": int(OpClose),
+		"OpComplex64": int(OpComplex64), "OpComplex128": int(OpComplex128), "OpConcat": int(OpConcat),
+		"OpContinue": int(OpContinue), "OpConvert": int(OpConvert), "OpConvertInt": int(OpConvertInt),
+		"OpConvertUint": int(OpConvertUint), "OpConvertFloat": int(OpConvertFloat), "OpConvertString": int(OpConvertString),
+		"OpCopy": int(OpCopy), "OpDefer": int(OpDefer), "OpDelete": int(OpDelete), "OpDiv": int(OpDiv),
+		"OpDivInt": int(OpDivInt), "OpDivFloat64": int(OpDivFloat64), "OpField": int(OpField), "OpGetVar": int(OpGetVar),
+		"OpGetVarAddr": int(OpGetVarAddr), "OpGo": int(OpGo), "OpGoto": int(OpGoto), "OpIf": int(OpIf),
+		"OpIfInt": int(OpIfInt), "OpIfFloat": int(OpIfFloat), "OpIfString": int(OpIfString), "OpIndex": int(OpIndex),
+		"OpIndexString": int(OpIndexString), "OpIndexRef": int(OpIndexRef), "OpLen": int(OpLen), "OpLoad": int(OpLoad),
+		"OpLoadFunc": int(OpLoadFunc), "OpMakeArray": int(OpMakeArray), "OpMakeChan": int(OpMakeChan),
+		"OpMakeMap": int(OpMakeMap), "OpMakeSlice": int(OpMakeSlice), "OpMakeStruct": int(OpMakeStruct),
+		"OpMapIndex": int(OpMapIndex), "OpMapIndexAny": int(OpMapIndexAny), "OpMethodValue": int(OpMethodValue),
+		"OpMove": int(OpMove), "OpMul": int(OpMul), "OpMulInt": int(OpMulInt), "OpMulFloat64": int(OpMulFloat64),
+		"OpNeg": int(OpNeg), "OpNew": int(OpNew), "OpOr": int(OpOr), "OpPanic": int(OpPanic), "OpPrint": int(OpPrint),
+		"OpRange": int(OpRange), "OpRangeString": int(OpRangeString), "OpRealImag": int(OpRealImag),
+		"OpReceive": int(OpReceive), "OpRecover": int(OpRecover), "OpRem": int(OpRem), "OpRemInt": int(OpRemInt),
+		"OpReturn": int(OpReturn), "OpSelect": int(OpSelect), "OpSend": int(OpSend), "OpSetField": int(OpSetField),
+		"OpSetMap": int(OpSetMap), "OpSetSlice": int(OpSetSlice), "OpSetVar": int(OpSetVar), "OpShl": int(OpShl),
+		"OpShlInt": int(OpShlInt), "OpShow": int(OpShow), "OpShr": int(OpShr), "OpShrInt": int(OpShrInt),
+		"OpSlice": int(OpSlice), "OpStringSlice": int(OpStringSlice), "OpSub": int(OpSub), "OpSubInt": int(OpSubInt),
+		"OpSubFloat64": int(OpSubFloat64), "OpSubInv": int(OpSubInv), "OpSubInvInt": int(OpSubInvInt),
+		"OpSubInvFloat64": int(OpSubInvFloat64), "OpTailCall": int(OpTailCall), "OpText": int(OpText),
+		"OpTypify": int(OpTypify), "OpXor": int(OpXor), "OpZero": int(OpZero),
+	}
+}
+
+// VerifC05URLCall is one call on a renderer: Text(Txt, InURL, IsSet) if
+// IsText, otherwise Show of the string Txt in an attribute context (InURL:
+// URL attribute, Quoted: quoted attribute) or, if !InURL, in HTML context.
+type VerifC05URLCall struct {
+	IsText bool
+	Txt    string
+	InURL  bool
+	IsSet  bool
+	Quoted bool
+}
+
+// VerifC05URLState is the URL state of a renderer.
+type VerifC05URLState struct {
+	InURL, Query, AddAmpersand, RemoveQuestionMark bool
+}
+
+type verifC05Chunks struct {
+	chunks []string
+}
+
+func (w *verifC05Chunks) Write(b []byte) (int, error) {
+	w.chunks = append(w.chunks, string(b))
+	return len(b), nil
+}
+
+func (w *verifC05Chunks) WriteString(s string) (int, error) {
+	w.chunks = append(w.chunks, s)
+	return len(s), nil
+}
+
+// VerifC05URL drives a real renderer with calls. It returns, for every call
+// executed, the chunks written and the state after the call; panicked is the
+// index of the call that panicked (-1 if none) with the panic message.
+func VerifC05URL(calls []VerifC05URLCall) (chunks [][]string, states []VerifC05URLState, panicked int, panicMsg string) {
+	panicked = -1
+	w := &verifC05Chunks{}
+	r := newRenderer(w)
+	e := &env{typeof: typeOfFunc}
+	one := func(c VerifC05URLCall) (msg string, did bool) {
+		defer func() {
+			if rec := recover(); rec != nil {
+				msg, did = panicToStringSafe(rec), true
+			}
+		}()
+		if c.IsText {
+			_ = r.Text([]byte(c.Txt), c.InURL, c.IsSet)
+			return "", false
+		}
+		ctx := Context(ast.ContextHTML)
+		if c.InURL {
+			if c.Quoted {
+				ctx = Context(ast.ContextQuotedAttr)
+			} else {
+				ctx = Context(ast.ContextUnquotedAttr)
+			}
+			ctx |= 0b10000000
+			if c.IsSet {
+				ctx |= 0b01000000
+			}
+		}
+		_ = r.Show(e, c.Txt, ctx)
+		return "", false
+	}
+	for i, c := range calls {
+		w.chunks = nil
+		msg, did := one(c)
+		if did {
+			return chunks, states, i, msg
+		}
+		chunks = append(chunks, w.chunks)
+		states = append(states, VerifC05URLState{r.inURL, r.query, r.addAmpersand, r.removeQuestionMark})
+	}
+	return chunks, states, -1, ""
+}
+
+// VerifC05Escape returns what pathEscape (which "path"), queryEscape
+// ("query") or htmlEscape ("html") write for s.
+func VerifC05Escape(which, s string, quoted bool) string {
+	w := &verifC05Chunks{}
+	switch which {
+	case "path":
+		_, _ = pathEscape(w, s, quoted)
+	case "query":
+		_, _ = queryEscape(w, s)
+	case "html":
+		_ = htmlEscape(w, s)
+	}
+	var out string
+	for _, c := range w.chunks {
+		out += c
+	}
+	return out
+}
+
+// VerifC05SwapStack calls the real swapStack on a virtual machine whose four
+// register stacks have length stackLen and hold their own index in every
+// slot. It returns the pointers after the call, the four stacks read back as
+// indexes and, if swapStack panicked, the message.
+func VerifC05SwapStack(stackLen int, a, b [4]uint32, bSize [4]int8) (na, nb [4]uint32, stacks [4][]int, panicMsg string) {
+	vm := NewVM()
+	vm.regs.int = make([]int64, stackLen)
+	vm.regs.float = make([]float64, stackLen)
+	vm.regs.string = make([]string, stackLen)
+	vm.regs.general = make([]reflect.Value, stackLen)
+	for i := 0; i < stackLen; i++ {
+		vm.regs.int[i] = int64(i)
+		vm.regs.float[i] = float64(i)
+		vm.regs.string[i] = strconv.Itoa(i)
+		vm.regs.general[i] = reflect.ValueOf(i)
+	}
+	vm.st = [4]Addr{Addr(stackLen), Addr(stackLen), Addr(stackLen), Addr(stackLen)}
+	pa := [4]Addr{Addr(a[0]), Addr(a[1]), Addr(a[2]), Addr(a[3])}
+	pb := [4]Addr{Addr(b[0]), Addr(b[1]), Addr(b[2]), Addr(b[3])}
+	func() {
+		defer func() {
+			if rec := recover(); rec != nil {
+				panicMsg = panicToStringSafe(rec)
+			}
+		}()
+		vm.swapStack(&pa, &pb, StackShift(bSize))
+	}()
+	for i := 0; i < 4; i++ {
+		na[i], nb[i] = uint32(pa[i]), uint32(pb[i])
+	}
+	stacks[0] = make([]int, len(vm.regs.int))
+	for i, v := range vm.regs.int {
+		stacks[0][i] = int(v)
+	}
+	stacks[1] = make([]int, len(vm.regs.float))
+	for i, v := range vm.regs.float {
+		stacks[1][i] = int(v)
+	}
+	stacks[2] = make([]int, len(vm.regs.string))
+	for i, v := range vm.regs.string {
+		stacks[2][i], _ = strconv.Atoi(v)
+	}
+	stacks[3] = make([]int, len(vm.regs.general))
+	for i, v := range vm.regs.general {
+		if v.IsValid() {
+			stacks[3][i] = int(v.Int())
+		}
+	}
+	return na, nb, stacks, panicMsg
+}
+
+// VerifC05CallShape describes, for the function named name reachable from
+// main, its NumReg and the stack shifts of the call instructions of main to
+// it and of itself to itself (found is false if there is no such function).
+type VerifC05CallShape struct {
+	Found     bool
+	MainRegs  [4]int8
+	NumReg    [4]int8
+	FromMain  [4]int8 // stack shift of main's call to the function
+	SelfShift [4]int8 // stack shift of the recursive call
+	HasSelf   bool
+}
+
+func verifC05Shift(in Instruction) [4]int8 {
+	return [4]int8{int8(in.Op), in.A, in.B, in.C}
+}
+
+// VerifC05Shape returns the call shape of the function name in main.
+func VerifC05Shape(main *Function, name string) (s VerifC05CallShape) {
+	s.MainRegs = main.NumReg
+	var target *Function
+	for i := 0; i+1 < len(main.Body); i++ {
+		in := main.Body[i]
+		if in.Op == OpCallFunc && int(uint8(in.A)) < len(main.Functions) {
+			if f := main.Functions[uint8(in.A)]; f.Name == name {
+				target = f
+				s.FromMain = verifC05Shift(main.Body[i+1])
+				break
+			}
+		}
+	}
+	if target == nil {
+		return s
+	}
+	s.Found = true
+	s.NumReg = target.NumReg
+	for i := 0; i+1 < len(target.Body); i++ {
+		in := target.Body[i]
+		if in.Op == OpCallFunc && int(uint8(in.A)) < len(target.Functions) && target.Functions[uint8(in.A)] == target {
+			s.SelfShift = verifC05Shift(target.Body[i+1])
+			s.HasSelf = true
+			break
+		}
+	}
+	return s
+}
